@@ -84,6 +84,31 @@ type v3SReader struct {
 	name  string
 	rdr   *Reader
 	state atomic.Value // "running" | "rodone" | "dead" | "cancelled"
+	gid   int64        // goroutine id of the reading goroutine (atomic)
+}
+
+// v3SLost: the reader's goroutine sleeps in the select of waitForHW and its
+// channel is not in hwWaiters (observed twice, a moment apart): nothing but the
+// cancellation of its context wakes it again.
+func v3SLost(l *commitLog, sr *v3SReader) bool {
+	for i := 0; i < 2; i++ {
+		if i > 0 {
+			time.Sleep(time.Millisecond)
+		}
+		if sr.state.Load().(string) != "running" {
+			return false
+		}
+		reg := func() bool {
+			l.mu.RLock()
+			defer l.mu.RUnlock()
+			_, ok := l.hwWaiters[sr.rdr.ctxReader]
+			return ok
+		}
+		if reg() || !v3Asleep(atomic.LoadInt64(&sr.gid)) || reg() {
+			return false
+		}
+	}
+	return true
 }
 
 func TestVerifReaderStress(t *testing.T) {
@@ -144,6 +169,7 @@ func v3StressRound(t *testing.T, tw *vTraceWriter, b vBehaviour) {
 		wgR.Add(1)
 		go func() {
 			defer wgR.Done()
+			atomic.StoreInt64(&sr.gid, v3Goid())
 			headers := make([]byte, msgSetHeaderLen)
 			for {
 				off, errc := func() (off int64, errc string) {
@@ -212,28 +238,32 @@ func v3StressRound(t *testing.T, tw *vTraceWriter, b vBehaviour) {
 			}
 		}
 	}()
-	// HW setter: any step, never beyond what has been appended
-	wgW.Add(1)
-	go func() {
-		defer wgW.Done()
-		for {
-			n := atomic.LoadInt64(&appended)
-			hw := l.HighWatermark()
-			if hw >= nMsgs-1 || atomic.LoadInt32(&stopBg) == 1 {
-				return
+	// HW setters (two: a leader has the fast path of the message loop and the
+	// commit loop, a follower the replication responses): any step, never
+	// beyond what has been appended
+	for k := 0; k < 2; k++ {
+		wgW.Add(1)
+		go func() {
+			defer wgW.Done()
+			for {
+				n := atomic.LoadInt64(&appended)
+				hw := l.HighWatermark()
+				if hw >= nMsgs-1 || atomic.LoadInt32(&stopBg) == 1 {
+					return
+				}
+				if n-1 > hw {
+					h := hw + 1 + int64(s.rnd(int(n-1-hw)))
+					l.SetHighWatermark(h)
+					s.emit(v3Ev{A: "SetHW", Off: h, S: -1})
+				}
+				if s.rnd(3) == 0 {
+					time.Sleep(time.Duration(s.rnd(80)) * time.Microsecond)
+				} else {
+					runtime.Gosched()
+				}
 			}
-			if n-1 > hw {
-				h := hw + 1 + int64(s.rnd(int(n-1-hw)))
-				l.SetHighWatermark(h)
-				s.emit(v3Ev{A: "SetHW", Off: h, S: -1})
-			}
-			if s.rnd(3) == 0 {
-				time.Sleep(time.Duration(s.rnd(80)) * time.Microsecond)
-			} else {
-				runtime.Gosched()
-			}
-		}
-	}()
+		}()
+	}
 	// roller: the cleaner loop's split check
 	go func() {
 		for atomic.LoadInt32(&stopBg) == 0 {
@@ -283,7 +313,7 @@ func v3StressRound(t *testing.T, tw *vTraceWriter, b vBehaviour) {
 			l.mu.RLock()
 			_, reg := l.hwWaiters[sr.rdr.ctxReader]
 			l.mu.RUnlock()
-			if !reg {
+			if !reg && !v3SLost(l, sr) {
 				allStopped = false
 			}
 		}
@@ -316,6 +346,8 @@ func v3StressRound(t *testing.T, tw *vTraceWriter, b vBehaviour) {
 			l.mu.RUnlock()
 			if reg {
 				st = "blocked"
+			} else if v3SLost(l, sr) {
+				st = "lost"
 			}
 		}
 		s.emit(v3Ev{A: "Final", R: sr.name, Off: -1, S: -1, Err: st})
